@@ -226,7 +226,14 @@ class Engine:
                     parts.append(("lit", str(v.value)))
                 elif isinstance(v, ast.FormattedValue):
                     spec = ast.unparse(v.format_spec) if v.format_spec is not None else ""
-                    parts.append(("val", self.ev(v.value, p, fr), v.conversion, spec))
+                    sv_ = self.ev(v.value, p, fr)
+                    if self.track_exc:
+                        # formatting a repository object runs its __str__ / __repr__ here and now (unlike a lazy logging argument)
+                        ck_ = self.sv_class(sv_, fr)
+                        m_ = self.M.find_method(ck_, "__repr__" if v.conversion == 114 else "__str__") if ck_ else None
+                        if m_ is not None and fr["depth"] < self.depth:
+                            self.inline_pure(m_, sv_, [], p, fr)
+                    parts.append(("val", sv_, v.conversion, spec))
             return ("fstr", tuple(parts))
         if isinstance(e, ast.Await):
             v = self.ev(e.value, p, fr)
@@ -1001,8 +1008,8 @@ class Engine:
         src = ast.unparse(f)
         if src.startswith(LOG_PREFIX):
             if self.track_exc:
-                for a in e.args[1:]:
-                    self.ev(a, p, fr)  # logging arguments are evaluated code: their exception sites count
+                for a in e.args[1:] + ([e.args[0]] if e.args and not isinstance(e.args[0], ast.Constant) else []):
+                    self.ev(a, p, fr)  # logging arguments are evaluated code: their exception sites count (the message too when it is built eagerly)
             p.effects.append(("log", tuple(ast.unparse(a) for a in e.args[1:]), e.lineno))
             return [(p, ("c", None))]
         args = [self.ev(a, p, fr) for a in e.args] + [("kw", k.arg, self.ev(k.value, p, fr)) for k in e.keywords if k.arg]
